@@ -410,6 +410,8 @@ TRIAGE: list[tuple[str, str, str, str]] = [
      "dataclass output writes a required member after a defaulted one (member order, not name binding)"),
     (r"^TypeError: <enum '.*'> cannot extend <enum '.*'>", "other_property", "C03 (allOf composition) / C09",
      "allOf over a definition that is an enum: the derived class inherits from an Enum that has members (the input is unsatisfiable as an object schema; not name binding)"),
+    (r"^PydanticUserError: `RootModel` does not support setting `model_config\['extra'\]`", "other_property", "C14 (representation-only options) / C03 (module not importable)",
+     "--allow-extra-fields writes model_config = ConfigDict(extra='allow') into a RootModel class, which pydantic v2 refuses when the class is created (option handling, not name binding)"),
     (r"^ValueError: On field \".*\" the following field constraints are set but not enforced", "other_property", "C04 / C14 (known finding: unenforced_field_constraints)",
      "pydantic v1 refuses a constraint the annotated type cannot enforce (constraint routing, not name binding)"),
 ]
